@@ -726,6 +726,21 @@ func (a *fnA) instrFacts(b *ssa.BasicBlock, in ssa.Instruction) {
 		}
 	case *ssa.Call:
 		a.callFacts(b, x)
+	case *ssa.UnOp:
+		// sliceHeader mirrors a Go slice header: 0 <= Len, 0 <= Cap (A6)
+		if x.Op == token.MUL && isIntLike(x.Type()) {
+			if fa, ok := x.X.(*ssa.FieldAddr); ok && typeName(deref(fa.X.Type())) == "sliceHeader" {
+				if n := fieldName(fa); n == "Len" || n == "Cap" {
+					if _, fwd := a.fwd[x]; !fwd {
+						t := linTerm(a.valTerm(x))
+						q, ok := geq(t, linConst(0))
+						a.addFact(q, ok, b, "slice header field >= 0")
+						q, ok = leq(t, linBig(big2p62))
+						a.addFact(q, ok, b, "slice header field <= 2^62")
+					}
+				}
+			}
+		}
 	}
 }
 
